@@ -435,3 +435,90 @@ package validate
 //@ typeinv schemaSliceValidator: self.Options != nil
 //@ typeinv objectValidator: self.Options != nil
 //@ typeinv schemaPropsValidator: self.Options != nil
+
+// ---------------------------------------------------------------------------
+// C06: schema validation never panics. Thin safety contracts: which values a validator may be handed
+// (the Applies/Validate protocol), which results may be nil, and the typed-slot invariant of SchemaValidator.
+//@ pred knumeric(d interface{}) = isInt(d) || isUint(d) || isF64(d) || isF32(d)
+//@ pred slotOK(v valueValidator, t string) = ptrof(v) != nil
+//@ pred slotsSV(s *SchemaValidator) = typeis(s.validators[0], "*typeValidator") && ptrof(s.validators[0]) != nil && typeis(s.validators[1], "*schemaPropsValidator") && ptrof(s.validators[1]) != nil && typeis(s.validators[2], "*stringValidator") && ptrof(s.validators[2]) != nil && typeis(s.validators[3], "*formatValidator") && ptrof(s.validators[3]) != nil && typeis(s.validators[4], "*numberValidator") && ptrof(s.validators[4]) != nil && typeis(s.validators[5], "*schemaSliceValidator") && ptrof(s.validators[5]) != nil && typeis(s.validators[6], "*basicCommonValidator") && ptrof(s.validators[6]) != nil && typeis(s.validators[7], "*objectValidator") && ptrof(s.validators[7]) != nil
+
+//@ func newSchemaValidator
+//@   maypanic
+//@   modifies *
+//@   ensures[C06] (result == nil) == (schema == nil)
+//@   ensures[C06] result == nil || slotsSV(result)
+//@   ensures[C06] result == nil || (result.Options != nil && result.Schema != nil)
+
+//@ func (*SchemaValidator).Validate
+//@   requires[C06] isJSON(data)
+//@   requires[C06] s == nil || slotsSV(s)
+//@   modifies *
+//@   ensures[C06] result != nil
+
+//@ func (*typeValidator).Validate
+//@   requires[C06] isJSON(data)
+//@   modifies *
+//@   ensures[C06] result != nil
+//@ func (*typeValidator).schemaInfoForType
+//@   requires[C06] isJSON(data) && data != nil
+//@   pure
+//@   ensures[C06] (result0 == "number") == isF64(data)
+//@ func (*schemaPropsValidator).Validate
+//@   requires[C06] isJSON(data) && data != nil
+//@   modifies *
+//@   ensures[C06] result != nil
+//@ func (*stringValidator).Validate
+//@   modifies *
+//@ func (*formatValidator).Validate
+//@   requires[C06] typeis(val, "string")
+//@   modifies *
+//@   ensures[C06] result != nil
+//@ func (*numberValidator).Validate
+//@   requires[C06] knumeric(val)
+//@   modifies *
+//@   ensures[C06] result != nil
+//@ func (*schemaSliceValidator).Validate
+//@   requires[C06] isJSON(data) && (data == nil || kind(data) == 23)
+//@   modifies *
+//@   ensures[C06] result != nil
+//@ func (*basicCommonValidator).Validate
+//@   modifies *
+//@ func (*objectValidator).Validate
+//@   requires[C06] isJSON(data)
+//@   modifies *
+//@   ensures[C06] result != nil
+
+//@ func IsValueValidAgainstRange
+//@   requires[C06] val != nil
+//@   pure
+//@ func FormatOf
+//@   assume strfmt.Default != nil
+//@   modifies *
+//@ func UniqueItems
+//@   pure
+//@   loop 1 invariant 0 <= i
+//@ func isImportant
+//@   requires[C06] err != nil
+//@   pure
+//@ func stripImportantTag
+//@   requires[C06] err != nil
+//@   pure
+//@   ensures[C06] result != nil
+//@ func (*Result).addRootObjectSchemata
+//@   requires[C06] s != nil
+//@   modifies all(r), elems(r.rootObjectSchemata.multiple)
+//@ func (*Result).addPropertySchemata
+//@   requires[C06] schema != nil
+//@   modifies all(r), heap("H$fieldSchemata$obj"), heap("H$fieldSchemata$field"), heap("H$schemata$one"), heap("H$schemata$multiple")
+//@ func (*Result).mergeForSlice
+//@   requires[C06] other == nil || kind(slice) == 23
+//@   modifies *
+//@   ensures[C06] result == r
+//@ func (*Result).mergeForField
+//@   modifies *
+//@   ensures[C06] result == r
+//@ func (*Result).keepRelevantErrors
+//@   requires[C06] nonnilE(r.Errors) && nonnilE(r.Warnings)
+//@   modifies *
+//@   ensures[C06] result != nil
